@@ -1,4 +1,4 @@
-"""C05 — KernelPCovR: contracts over the matrix layer.
+"""Contracts for KernelPCovR (C05) over the matrix layer.
 
 Modular / assumed (conformance-tested at run time): pairwise_kernels(X, Y, metric=...) = KERN(X, Y) (a function of the two sample sets only;
 'precomputed' returns X itself); _decompose_full/_decompose_truncated as for PCovR; KernelNormalizer.fit_transform / transform (C12 contract:
